@@ -116,10 +116,11 @@ def apply_analysis(sess, op):
         if "C17" in E:
             sess.fail("C17", "analysis-changed-state", "%s %s: %s" % (k, _opsum(op), d))
         sess._twin_fail(d, op)
-    shsnap = sess.snapshot(sess.shadow)
-    d = sess.snap_diff(snap, shsnap)
-    if d:
-        sess._twin_fail(d, op)
+    if not sess.twin_lost:
+        shsnap = sess.snapshot(sess.shadow)
+        d = sess.snap_diff(snap, shsnap)
+        if d:
+            sess._twin_fail(d, op)
     sess.prev_snap = snap
     if "C17" in E and op.get("probe_full", True):
         if sess.last_full is not None and not sess.dirty:
@@ -196,9 +197,12 @@ def apply_restart(sess, op):
         if len(kinds) >= 4:
             sess.nontrivial.add(("rt", tuple(sorted(kinds)), bool(m.sys_phases), any(m.rails.values()), m.mux() is not None))
     else:
-        d = sess.snap_diff(before_snap, snap)
-        if d:
-            sess._twin_fail(d, op)
+        # this run does not judge the round trip: the session simply continues
+        # on the reloaded object and the model-based monitors see what it does;
+        # the real-code twins are no longer comparable
+        if sess.snap_diff(before_snap, snap):
+            sess.twin_lost = True
+            sess.stats["restart_changed_reports_in_non_C12_run"] += 1
     if op.get("replace", True):
         sess.sut = re
         sess.stats["restart_replaced_sut"] += 1
@@ -349,6 +353,19 @@ def apply_observe(sess, op):
             d = sess.full_diff(full, sess.full_obs(f, ta))
             if d:
                 sess.fail("C16", "results-equal-from-scratch", "%s build: %s" % ("canonical" if seed is None else "shuffled", d))
+            if seed is None:
+                from .render import collect
+
+                def drawn(sysobj):
+                    n0 = len(sess.w.graphs)
+                    sess.w.D.make_diag(sysobj, fname="c16.raw")
+                    nodes, edges, clusters = collect(sess.w.graphs[-1])
+                    del sess.w.graphs[n0:]
+                    return (sorted((n, c) for n, _, c in nodes), sorted((a, b) for a, b, _ in edges), sorted(clusters))
+
+                ga, gb = sess._guard(lambda: drawn(sut)), sess._guard(lambda: drawn(f))
+                if ga != gb:
+                    sess.fail("C16", "diagram-equal-from-scratch", "make_diag: %s vs from-scratch %s" % (_short(ga), _short(gb)))
             sess.stats["c16_fresh_compares"] += 1
         for name in ("solve", "rail"):
             x = full[name]
@@ -365,7 +382,7 @@ def apply_observe(sess, op):
             apply_analysis(sess, rop)
             sess.outcomes.pop()
     # final SUT == twins that never saw the rejected calls / analyses
-    if op.get("final") and ("C17" in E or "C15" in E):
+    if op.get("final") and ("C17" in E or "C15" in E) and not sess.twin_lost:
         if full is None:
             full = sess.full_obs(sut, ta)
         d = sess.full_diff(full, sess.full_obs(sess.shadow, ta))
